@@ -286,6 +286,7 @@ func vh_C11_Handlers() {
 // handler) - the second effect still runs on the observe handler's goroutine and the second OnNext on the subscribe
 // handler's, once each
 func vh_C11_BusyHandlers() {
+	vfSetDelayBound(1 + vfTier()) // five goroutines: the thorough tier's bound of 5 deviations is for the two-party harnesses
 	h1, h2 := Handler.New(), Handler.New()
 	id1, id2 := -1, -1
 	h1.Post(func() { id1 = vfGoroutineID() })
